@@ -483,7 +483,13 @@ func (r *c16Run) dfs(ctx sdk.Context, ref *c16Ref, depth, maxDepth int, path []s
 		}
 		sort.Strings(ai)
 		p := k.GetParams(ctx)
-		return fmt.Sprintf("prices[%s] feeders[%s] infos[%s] expiry=%d life=%d", priceDump(r.w, ctx), strings.Join(fs, ","), strings.Join(ai, ","), p.PriceExpiryTime, p.LifeTimeInBlocks)
+		// POINT lookups too (a keeper-side cache answers these, not the store iteration above)
+		pl := []string{}
+		for _, d := range []string{"uaaa", "unone"} {
+			info, found := k.GetAssetInfo(ctx, d)
+			pl = append(pl, fmt.Sprintf("%s:%v/%s/%s", d, found, info.Display, k.GetAssetPriceFromDenom(ctx, d)))
+		}
+		return fmt.Sprintf("prices[%s] feeders[%s] infos[%s] lookups[%s] expiry=%d life=%d", priceDump(r.w, ctx), strings.Join(fs, ","), strings.Join(ai, ","), strings.Join(pl, ","), p.PriceExpiryTime, p.LifeTimeInBlocks)
 	}
 	fp0 := fpOf()
 	last := -1
